@@ -214,6 +214,30 @@ def run(ctx):
             ok, _ = fe.proves(pg, b, i, ("a", "res.second"))
             ctx.check(ok, "R15.2", pg, "group-order-iff-inserted", "a group is appended to group_order_ although it may already exist (it would be listed twice)", (pg, n.get("ln")))
 
+    # the default group is found by its key, not by its position: groups_ is ordered by name, "__default" is first only while
+    # every user group's name sorts behind it
+    dg = [f for f in prog.methods_of(NS + "parser") if f.name == "group" and not f.params and f.has_cfg]
+    pctor = [f for f in prog.methods_of(NS + "parser") if f.kind == "ctor" and f.has_cfg and not f.flags.get("move_ctor") and not f.flags.get("copy_ctor")]
+    keys = set()
+    for f in pctor:
+        for _, _, e in f.all_elems():
+            if e.get("expr") is None:
+                continue
+            for n in walk(e["expr"]):
+                if n.get("k") == "call" and short(n.get("name") or "") in ("emplace", "insert", "try_emplace", "operator[]") and "groups_" in fmt(n.get("this") or {}):
+                    keys |= {y["v"] for y in walk(n) if isinstance(y, dict) and y.get("k") == "lit" and y.get("t") == "str"}
+    ctx.need("R15.2", "parser::group() accessor", len(dg), 1)
+    for f in dg:
+        rets = [ir.unwrap(e["expr"].get("e")) for _, _, e in f.roots() if e["expr"].get("k") == "return"]
+        okk = False
+        if len(rets) == 1 and isinstance(rets[0], dict):
+            r = rets[0]
+            lits = {y["v"] for y in walk(r) if isinstance(y, dict) and y.get("k") == "lit" and y.get("t") == "str"}
+            by_key = any(y.get("k") == "call" and short(y.get("name") or "") in ("at", "find", "operator[]") and "groups_" in fmt(y.get("this") or {}) for y in walk(r))
+            okk = by_key and bool(lits) and lits <= keys
+        ctx.check(okk, "R15.2", f, "default-group-by-key", "parser::group() returns %s instead of the element stored under the constructor's key %s: with a group whose name sorts before that key "
+                  "(\"Output\", \"1st pass\") top-level declarations land in - and usage() prints - a user group in place of the default group" % ([fmt(x)[:60] for x in rets], sorted(keys)), f,
+                  why_ok="by key %s" % sorted(keys))
     # who may write the creation-order lists: the creating functions append (above / R13.1); the move operations hand the
     # whole list over; nothing else reorders, clears or rebuilds them (a rebuild from a name-sorted map loses the order)
     for cls, fld, creators in ((NS + "parser", NS + "parser::group_order_", ("group",)), (NS + "group", NS + "group::order_", ("option", "multi_option", "toggle"))):
@@ -406,6 +430,11 @@ def run(ctx):
     # ---- R15.6: the layout is a function of the declarations alone - fixed width, nothing read from the process environment
     ctx.rule("R15.6", "every call of the wrapping routine on the usage path passes a constant width of at most 80; nothing reachable from usage() reads the environment")
     ureach = cg.reachable([usage.id])
+    # ---- R15.9: nothing on the usage path keeps state between calls
+    ctx.rule("R15.9", "no function reachable from usage() keeps a function-local static / thread_local object: the text is a function of the declarations alone, also when several usage texts are produced at once")
+    from .common import rule_no_static_state
+    rule_no_static_state(ctx, "R15.9", lambda f: f.id in ureach and ("/options/" in f.file or f.file.endswith(("io/terminal.hpp", "lang/string.hpp", "format/format.hpp"))),
+                         "usage texts produced at the same time (other parsers, other target streams, other threads) are laid out in one shared object", minimum=10)
     nw = 0
     for fid in sorted(ureach):
         g = prog.fn(fid)
